@@ -476,4 +476,40 @@ theorem c11_emitted_slot_holds_its_location {cfg : RichCfg} {secs : List RSectio
     have hyi : y.idx = some i := by simpa using List.find?_some hf
     rw [eq_of_key_nodup (·.idx) locs hN y hy l hl i hyi hi]
 
+/-- the same for the emitted unit-property table: the slot lookup (`cuwpAt`) for slot `i` returns exactly the set
+that carries `i` -/
+theorem c11_emitted_slot_holds_its_cuwp {cfg : RichCfg} {secs : List RSection} {order : Option (List Nat)}
+    {cuwps : List RCuwp} (h : rebuildUprp cfg secs order = .ok cuwps)
+    (table : List RCuwp)
+    (ht : secs.filter (isSectionNamed nUPRP) = [] ∧ table = [] ∨ secs.filter (isSectionNamed nUPRP) = [.uprp table])
+    (hnd : (table.filterMap (·.idx)).Nodup) :
+    ∀ c ∈ cuwps, ∀ i, c.idx = some i → cuwps.reverse.find? (fun t => t.idx == some i) = some c := by
+  have hN := c11_emitted_cuwp_slots_distinct h table ht hnd
+  intro c hc i hi
+  cases hf : cuwps.reverse.find? (fun t => t.idx == some i) with
+  | none =>
+    have := List.find?_eq_none.mp hf c (List.mem_reverse.mpr hc)
+    simp [hi] at this
+  | some y =>
+    have hy : y ∈ cuwps := List.mem_reverse.mp (List.mem_of_find?_eq_some hf)
+    have hyi : y.idx = some i := by simpa using List.find?_some hf
+    rw [eq_of_key_nodup (·.idx) cuwps hN y hy c hc i hyi hi]
+
+/-- **every set of the emitted unit-property table is written as its own slot number**: with the table the rebuild
+produced as the encode context, a reference to a set that sits in the table at slot `i` — stored before, or placed
+by this very save — is written as `i`, whatever other slots hold equal values (composition of the rebuild, the
+allocator's soundness and the lookup rule of repository fix 8ebe6f0) -/
+theorem c11_emitted_cuwp_reference_is_its_slot {cfg : RichCfg} {secs : List RSection} {order : Option (List Nat)}
+    {cuwps : List RCuwp} (h : rebuildUprp cfg secs order = .ok cuwps)
+    (table : List RCuwp)
+    (ht : secs.filter (isSectionNamed nUPRP) = [] ∧ table = [] ∨ secs.filter (isSectionNamed nUPRP) = [.uprp table])
+    (hnd : (table.filterMap (·.idx)).Nodup)
+    (ctx : EncCtx) (hctx : ctx.cuwps = cuwps) (c : RCuwp) (hc : c ∈ cuwps) (i : Nat) (hi : c.idx = some i) :
+    cuwpId ctx c = some i := by
+  apply c11_cuwp_reference_keeps_slot hi
+  refine ⟨c, ?_, rfl⟩
+  unfold cuwpAt
+  rw [hctx]
+  exact c11_emitted_slot_holds_its_cuwp h table ht hnd c hc i hi
+
 end Richchk.Props.C11
